@@ -1,4 +1,5 @@
 """Checks decided with the definition-time machine (spec/ICDefine.tla)."""
+import inspect
 import itertools
 import random
 from typing import Any, Dict, List, Optional, Set
@@ -113,7 +114,16 @@ def verdicts_unit(res: CheckResult, hist: dict, expected: Dict[int, dict], ic: A
                     elif mv["kind"] in ("static", "cls"):
                         getattr(cls, name)()
                     else:
-                        getattr(inst, name)()
+                        out = getattr(inst, name)()
+                        if inspect.iscoroutine(out):
+                            # an `async def` member (hist["async_members"]): drive it to completion
+                            try:
+                                out.send(None)
+                            except StopIteration:
+                                pass
+                            else:
+                                out.close()
+                                raise MachineryError("an async member suspended")
                     got = ("ok",)  # type: Any
                 except ic.ViolationError as exc:
                     import re
